@@ -28,6 +28,11 @@ func init() {
 			}
 			p.Scenario = g.Scenario(ScenOpts{MinTx: 3, MaxTx: maxTx, MaxOps: 4, PoisonPct: 8, DelPct: 45, RollbackPct: 40, BadRollbackPct: 35,
 				AsyncPct: 30, MultiPct: 35, PipelinePct: 35}, p.Knobs.Targets)
+			if g.chance(1, 6) {
+				// rollbacks at the end of ladders of ancestor deletes and re-creations on one sub-tree
+				p.Profile = "rollback+ladder"
+				p.Scenario = g.LadderScenario(p.Knobs.Targets[0], maxTx+5)
+			}
 			p.Sched = g.RandSched()
 			p.Knobs.ConnLate = map[string]bool{}
 			p.Knobs.NoDevice = map[string]bool{}
